@@ -71,9 +71,9 @@ func DrawTexts(rec *render.Rec) [][]string {
 }
 
 type modelPage struct {
-	index, name           int
-	right, blank, forced  bool
-	lines                 []Placed
+	index, name          int
+	right, blank, forced bool
+	lines                []Placed
 }
 
 func parseModelPages(ans sx.X) (done bool, pages []modelPage, err error) {
